@@ -273,7 +273,10 @@ def Bprime_q2(L, q2, q02, d):
     _epsilon = 1e-15
     z0 = q02 * d**2
     z = q2 * d**2
-    bp = Bprime_polynomial(L, z0) / Bprime_polynomial(L, z)
+    # the polynomial at the nominal momentum is a normalisation constant: it enters by its modulus
+    # (it is negative for odd L when q0^2 is sufficiently negative, e.g. a nominal mass beyond the
+    # kinematic limit); the event dependent denominator is always kept
+    bp = tf.abs(Bprime_polynomial(L, z0)) / Bprime_polynomial(L, z)
     return tf.sqrt(tf.where(bp > 0, bp, 1.0))
 
 
